@@ -267,6 +267,14 @@ def run (ctx):
       good = 'match.matches_with_wildcards(self.match)' in txt
       ctx.ob('R-AGREE', imb, "non-strict matching: the given match subsumes the entry's", good, txt if good else "non-strict branch returns `%s` (direction or call changed)" % txt, (ftmod, r), 'D3')
 
+  # what is_matched_by / expiry consult must be the entry's current state, not a copy made at construction
+  stale = q.stale_derived_state(repo, te, [ftmod, swmod])
+  for X, P, ist, (m_, f_, st_) in stale:
+    ctx.bad('R-OWN', te, "state derived from `%s` at construction stays in step with it" % P,
+            "TableEntry.__init__ keeps `%s`, computed from `%s`; %s replaces `.%s` (`%s`) without recomputing it: filters and reports that consult `%s` "
+            "(out_port matching, statistics) keep answering for the entry's old %s after a MODIFY" % (X, P, f_.qual, P, norm(st_)[:60], X, P), (m_, st_), 'D7')
+  if not stale:
+    ctx.ob('R-OWN', te, "no attribute of an entry is a construction-time copy of a replaceable one", True, "none", te, 'D7')
   # ---- D4 notification -----------------------------------------------------
   removal_routines = []
   for name in ('remove_entry', '_remove_specific_entries'):
